@@ -33,6 +33,7 @@ Public API
         .comp_value(i), .comp_grad(i), .comp_hess(i)            60-digit mpmath values per component
         .majorant(elem, dirs, radii)                            M(r) >= sup |f_elem| on the polydisc
         .scale(order, elem, dirs, r0, r1)                       local scale S_order (see below)
+        .max_majorant(reach)                                    overflow guard: sup of all values on the polydisc
         .noise(elem), .cond(elem, dirs)                         argument-rounding terms for the floor
         .sup_box(elem, d)                                       polynomial part: sup |f| on the box |s_l| <= d_l
         .ops(), .negative_base()                                 classification of findings
@@ -552,12 +553,13 @@ class MVAnalysis(object):
         radii = np.asarray(radii, dtype=float)
         c00, lin, quad = self._poly_coefs(i, D)
         M = c00 + lin * radii + quad * radii ** 2
-        for t in self.prog['comps'][i]['terms']:
-            p = abs(t['c']) * np.ones_like(radii)
-            for r in t['f']:
-                rho = sum(self.factors[r]['absa'][d] for d in D)
-                p = p * self._factor_majorant(r, rho, radii)
-            M = M + p
+        with np.errstate(over='ignore', invalid='ignore'):
+            for t in self.prog['comps'][i]['terms']:
+                p = abs(t['c']) * np.ones_like(radii)
+                for r in t['f']:
+                    rho = sum(self.factors[r]['absa'][d] for d in D)
+                    p = p * self._factor_majorant(r, rho, radii)
+                M = M + p
         return M
 
     def majorant(self, elem, dirs, radii):
@@ -569,6 +571,20 @@ class MVAnalysis(object):
         if self.wrap is not None:
             M = abs(self.wrap[0]) * M + abs(self.wrap[1])
         return M
+
+    def max_majorant(self, reach):
+        """max over the output elements of M_e(all coordinates, reach): an upper bound of every value and
+        intermediate value of f on the polydisc of radius reach (inf if not certified that far).  The checks
+        skip cases where it exceeds 1e150 (products of factors would overflow double precision)."""
+        D = tuple(range(self.n))
+        r = min(float(reach), self.reach_limit(), R_CAP)
+        best = 0.0
+        for e in range(len(self.elements)):
+            v = float(self.majorant(e, D, [r])[0])
+            if not math.isfinite(v):
+                return math.inf
+            best = max(best, v)
+        return best
 
     def scale(self, order, elem, dirs, r0, r1):
         """S_order of output element elem for the partial derivative in the directions dirs (a tuple of
